@@ -325,7 +325,7 @@ def _case_body(ch, out, cfg, content, hot, line, outmode, img, vals, fn, files):
 
     # ---- scale by k = +-2^j : exact
     if ch.chance("do_scale", 2, 3):
-        j = ch.pick("scale_pow", (1, -1, 3, -3, 0, 5))
+        j = ch.pick("scale_pow", (1, -1, 3, -3, 0, 5, -30, 20, -40))      # also far away from unity (absolute tolerances!)
         k = (2.0 ** j) * (-1.0 if ch.chance("scale_neg", 1, 2) or j == 0 else 1.0)
         img_k = bw.make_image(cfg, content, scale=k)
         if _exact(cfg, img_k) and _exact(cfg, img):
